@@ -232,6 +232,12 @@ def check_program(prog, driver, target="sql.sqlite", k=2, schema=None, timeout_m
         if o.status == "violation":
             return o
         return Outcome("sql_unparseable", prql=text, sql=sql_text, detail=r.get("ast_error"))
+    if target == "sql.sqlite":
+        # the sqlite target's output must at least prepare on SQLite (cheap, on an empty instance)
+        try:
+            run_sqlite(schema, {}, sql_text)
+        except sqlite3.Error as e:
+            return Outcome("violation", kind="sqlite_error", prql=text, sql=sql_text, data={}, detail=f"SQLite rejects the emitted SQL: {e}")
     db = SymDB(schema, k, bound)
     pre = P.Pre()
     try:
@@ -240,7 +246,18 @@ def check_program(prog, driver, target="sql.sqlite", k=2, schema=None, timeout_m
         return Outcome("ref_unsupported", prql=text, sql=sql_text, detail=str(e))
     sem = S.SqlSem(db, dialect)
     try:
-        sq = sem.run(r["ast"])
+        try:
+            sq = sem.run(r["ast"])
+        except S.BindError as e:
+            if dialect == "generic" and "ambiguous" in str(e) and " / " not in sql_text:
+                # standard SQL rejects the reference, no engine here can confirm that; continue under SQLite's
+                # reading (first match inside one sub-query) so that the values are still checked
+                sem = S.SqlSem(db, "sqlite")
+                sem.notes_generic_ambiguity = str(e)
+                sq = sem.run(r["ast"])
+                dialect = "sqlite"
+            else:
+                raise
     except S.BindError as e:
         return structural(prog, text, sql_text, schema, f"bind: {e}")
     except Unsupported as e:
@@ -374,8 +391,16 @@ def check_equivalent(base, rw, driver, target="sql.sqlite", k=2, schema=None, ti
             S.SqlSem(db, dialect).run(ra["ast"])
         except (S.BindError, Unsupported):
             return Outcome("base_unsupported", prql=tb, base=ta, detail=str(e))
-        return Outcome("sql_unsupported" if isinstance(e, Unsupported) else "violation", kind="sqlite_error", prql=tb, base=ta, sql=rb["sql"], base_sql=ra["sql"],
-                       detail=f"rewritten program's SQL does not bind: {e}")
+        if isinstance(e, Unsupported):
+            return Outcome("sql_unsupported", prql=tb, base=ta, sql=rb["sql"], base_sql=ra["sql"], detail=str(e))
+        # confirm on real SQLite before reporting
+        data = {t: [tuple(range(1 + i, 1 + i + len(cols))) for i in range(2)] for t, cols in schema.items()}
+        try:
+            run_sqlite(schema, data, rb["sql"])
+        except sqlite3.Error as e2:
+            return Outcome("violation", kind="sqlite_error", prql=tb, base=ta, sql=rb["sql"], base_sql=ra["sql"], data=data,
+                           detail=f"rewritten program's SQL does not bind: {e}; SQLite: {e2}")
+        return Outcome("sql_unsupported", prql=tb, base=ta, sql=rb["sql"], base_sql=ra["sql"], detail=f"binder rejects ({e}) but SQLite accepts the rewritten program's SQL")
     if len(A.cols) != len(B.cols):
         return Outcome("violation", kind="arity", prql=tb, base=ta, sql=rb["sql"], base_sql=ra["sql"],
                        detail=f"base SQL returns {[c.name for c in A.cols]}, rewritten returns {[c.name for c in B.cols]}")
@@ -407,7 +432,11 @@ def check_equivalent(base, rw, driver, target="sql.sqlite", k=2, schema=None, ti
         return Outcome("violation", kind="sqlite_error", prql=tb, base=ta, sql=rb["sql"], base_sql=ra["sql"], data=data, detail=f"SQLite rejects the rewritten program's SQL: {e}")
     same = rows_match([(i, r) for i, r in enumerate(rows_a)], rows_b, ordered)
     if same:
-        return Outcome("unreproduced", prql=tb, base=ta, sql=rb["sql"], base_sql=ra["sql"], data=data, solver_s=dt)
+        import re as _re
+        nondet = _re.search(r"(ROW_NUMBER|LAG|LEAD|FIRST_VALUE|LAST_VALUE)\([^()]*\) OVER \((PARTITION BY [^()]*)?\)", ra["sql"] + " " + rb["sql"]) or \
+            _re.search(r"OVER \((PARTITION BY [^()]*)?ROWS ", ra["sql"] + " " + rb["sql"])
+        return Outcome("unreproduced_nondet" if nondet else "unreproduced", prql=tb, base=ta, sql=rb["sql"], base_sql=ra["sql"], data=data, solver_s=dt,
+                       detail="positional window function without ORDER BY: SQL leaves the row order open; SQLite's choice makes both programs agree" if nondet else "")
     return Outcome("violation", kind="result", prql=tb, base=ta, sql=rb["sql"], base_sql=ra["sql"], data=data, ordered=ordered,
                    expected=[list(r) for r in rows_a], actual=[list(r) for r in rows_b], solver_s=dt,
                    detail="the rewritten program returns different rows than the base program")
